@@ -1,8 +1,8 @@
-(* REFINEMENT for the two-client machine: on every history the model's observation of an operation
+(* REFINEMENT for the n-client machine (clients numbered, kept in a list; historical "2" names): on every history the model's observation of an operation
    (ServerWrite2Model.step2) equals the reference object's (ServerWrite2Spec.spec_step2) wherever the
    reference object makes a claim - including which notifications collected in a poll round are
-   still delivered after callbacks of the other client changed what a client wants. *)
-From Coq Require Import ZArith List Bool Lia.
+   still delivered after callbacks of other clients changed what a client wants. *)
+From Coq Require Import ZArith List Bool Lia PeanoNat.
 From ServerWrite Require Import ServerWriteSpec ServerWriteModel ServerWriteProofs ServerWriteTheorems ServerWriteRefine
   ServerWrite2Spec ServerWrite2Model ServerWrite2Proofs.
 Import ListNotations.
@@ -62,7 +62,7 @@ Proof.
       inv_pair H; apply Hkeep; simpl; auto.
 Qed.
 
-(* what the two-client bookkeeping reads of a client: the same in model and reference object *)
+(* what the n-client bookkeeping reads of a client: the same in model and reference object *)
 Lemma view_eq s t :
   inv s -> rel s t -> sinv t -> s_void t = false ->
   registered s = served t /\ closing s = s_closing t /\
@@ -81,10 +81,8 @@ Qed.
 
 Record R2 (m : st2) (u : sst2) : Prop := mkR2 {
   r2_inv : inv2 m;
-  r2_a : rel (cl0 m) (t0 u);
-  r2_b : rel (cl1 m) (t1 u);
-  r2_sa : sinv (t0 u);
-  r2_sb : sinv (t1 u);
+  r2_cl : forall c, rel (get2 m c) (sget u c);
+  r2_s : forall c, sinv (sget u c);
   r2_sel : sel m = pend u;
   r2_clq : closq m = s_clq u
 }.
@@ -92,24 +90,37 @@ Record R2 (m : st2) (u : sst2) : Prop := mkR2 {
 (* no relation is claimed once the reference object has stopped making claims *)
 Definition rel2 (m : st2) (u : sst2) : Prop := any_void u = true \/ R2 m u.
 
+Lemma sget_init2 c : sget spec_init2 c = spec_init.
+Proof. apply getc_nil. Qed.
+
+Lemma sget_sput_same u c t t' l : sget (sput u c t t' l) c = t'.
+Proof. apply getc_setc_same. Qed.
+
+Lemma sget_sput_other u c d t t' l : d <> c -> sget (sput u c t t' l) d = sget u d.
+Proof. apply getc_setc_other. Qed.
+
 Lemma R2_init : R2 init2 spec_init2.
-Proof. split; try reflexivity; try apply rel_init; try apply sinv_init. apply inv2_init. Qed.
+Proof.
+  split; try reflexivity.
+  - apply inv2_init.
+  - intros c. rewrite get2_init2, sget_init2. apply rel_init.
+  - intros c. rewrite sget_init2. apply sinv_init.
+Qed.
 
 Lemma R2_get m u c : R2 m u -> rel (get2 m c) (sget u c) /\ sinv (sget u c) /\ inv (get2 m c).
-Proof. intros [Hi Ha Hb Hsa Hsb _ _]. destruct c; simpl; (split; [assumption | split; [assumption | apply Hi]]). Qed.
+Proof. intros [Hi Ha Hs _ _]. split; [apply Ha | split; [apply Hs | apply Hi]]. Qed.
 
 Lemma any_void_false u c : any_void u = false -> s_void (sget u c) = false.
-Proof. unfold any_void. intros H. apply orb_false_iff in H. destruct c; simpl; tauto. Qed.
+Proof. unfold any_void, sget. intros H. apply existsb_getc_false; [reflexivity | assumption]. Qed.
 
 Lemma any_void_sput u c t t' l :
   any_void u = false -> s_void t' = false -> any_void (sput u c t t' l) = false.
 Proof.
-  unfold any_void. intros H Hv. apply orb_false_iff in H. destruct H as [A B].
-  destruct c; simpl; rewrite ?A, ?B, ?Hv; reflexivity.
+  unfold any_void. intros H Hv. cbn [sput ts]. apply existsb_setc_false; [reflexivity | assumption | assumption].
 Qed.
 
 Lemma any_void_sput_true u c t t' l : s_void t' = true -> any_void (sput u c t t' l) = true.
-Proof. unfold any_void. intros Hv. destruct c; simpl; rewrite Hv; auto using orb_true_r. Qed.
+Proof. unfold any_void. intros Hv. cbn [sput ts]. apply existsb_setc_true. assumption. Qed.
 
 (* client c moves from (s, t) to (s', t') in both machines *)
 Lemma put_refines m u c s' t' l :
@@ -129,8 +140,17 @@ Proof.
                  clq_update c (s_closing (sget u c)) (s_closing t') (s_clq u)).
   { rewrite V2, W2, (r2_clq m u HR). reflexivity. }
   pose proof (put2_inv2 m c (get2 m c) s' l (r2_inv m u HR) eq_refl Hinv Hok) as Hi2.
-  destruct HR as [Hi Ha Hb Hsa Hsb Hsel Hclq].
-  split; auto; destruct c; simpl in *; auto.
+  destruct HR as [Hi Ha Hs Hsel Hclq].
+  split.
+  - exact Hi2.
+  - intros d. destruct (Nat.eq_dec d c) as [->|Hne].
+    + rewrite get2_put2_same, sget_sput_same. exact Hrel.
+    + rewrite get2_put2_other, sget_sput_other by assumption. apply Ha.
+  - intros d. destruct (Nat.eq_dec d c) as [->|Hne].
+    + rewrite sget_sput_same. exact Hsinv.
+    + rewrite sget_sput_other by assumption. apply Hs.
+  - rewrite sel_put2. exact Esel.
+  - exact Eclq.
 Qed.
 
 (* ---- a notification with given parts: model against the reference object ---------------------- *)
@@ -177,7 +197,7 @@ Proof.
   { unfold collect, spec_collect. simpl. apply flat_map_ext. intros [c n]. simpl.
     destruct (R2_get m u c HR) as [Hrc [Hsc Hic]].
     apply collect_one_refines; auto. apply any_void_false; assumption. }
-  destruct HR as [_ Ha Hb Hsa Hsb _ Hclq]. split; auto.
+  destruct HR as [_ Ha Hs _ Hclq]. split; auto.
 Qed.
 
 Lemma any_void_collect u evs : any_void (spec_collect u evs) = any_void u.
@@ -249,7 +269,7 @@ Proof.
   intros Hrel Hst Hsp. unfold spec_step2 in Hsp. destruct (any_void u) eqn:Hv.
   { inv_pair Hsp. split; [exact I | left; assumption]. }
   destruct Hrel as [Hrel|HR]; [congruence|].
-  unfold step2 in Hst. destruct x as [d y | first n0 n1 | o |].
+  unfold step2 in Hst. destruct x as [d y | evs | o |].
   - assert (Hsingle : forall n o,
       match sel m with
       | [] => if removed (get2 m d) then (m, mkout2 (Some d) out_dead false) else deliver (collect m [(d, n)]) o
